@@ -95,6 +95,56 @@ def selftest_sre(item, res):
         raise EngineError("sre interpreter disagrees with CPython on %d of %d comparisons" % (bad, n))
 
 
+def _method_battery():
+    """string / integer methods on *symbolic* operands: every explored path's model is pushed through the same CPython
+    operation and must give the path's result (value or exception type)"""
+    tests = {
+        "rpartition": lambda s, i: s.rpartition("$"), "partition": lambda s, i: s.partition("$"), "rsplit": lambda s, i: s.rsplit(" ", 1),
+        "split": lambda s, i: s.split(), "split$": lambda s, i: s.split("$"), "splitlines": lambda s, i: s.splitlines(), "splitlines+": lambda s, i: s.splitlines(True),
+        "rfind": lambda s, i: s.rfind("a"), "find": lambda s, i: s.find("b"), "index": lambda s, i: s.index("a"), "count": lambda s, i: s.count("a"),
+        "count2": lambda s, i: s.count("aa"), "replace": lambda s, i: s.replace("a", "bc"), "replace1": lambda s, i: s.replace("ab", "", 1),
+        "removeprefix": lambda s, i: s.removeprefix("a"), "removesuffix": lambda s, i: s.removesuffix("ab"), "rjust": lambda s, i: s.rjust(5, "0"),
+        "ljust": lambda s, i: s.ljust(5), "zfill": lambda s, i: s.zfill(6), "strip": lambda s, i: s.strip(), "lstrip": lambda s, i: s.lstrip("a+"),
+        "startswith": lambda s, i: s.startswith(("ab", "$")), "endswith": lambda s, i: s.endswith(("ab", "\n")), "isdigit": lambda s, i: s.isdigit(),
+        "abs": lambda s, i: abs(i - 100), "bit_length": lambda s, i: (i - 7).bit_length(), "pow": lambda s, i: i ** 3, "divmod": lambda s, i: divmod(i - 50, 7),
+        "invert": lambda s, i: ~i & 0xff, "and-": lambda s, i: (i - 128) & (i - 129), "shift-": lambda s, i: (i - 128) >> 2,
+    }
+    n = 0
+    for name, f in tests.items():
+        ex = Explorer()
+        cs = [z3.BitVec("mb%d" % k, 8) for k in range(3)]
+        v = z3.BitVec("mbv", 8)
+
+        def h(ex_, f=f, cs=cs, v=v):
+            for c in cs:
+                ex_.assume(core.in_set_expr(c, frozenset(map(ord, "ab $\n\r+7"))))
+            return f(SStr.mk(list(cs)), SInt.unsigned(v))
+        for p in ex.explore(h):
+            m = p.model
+            if m is None:
+                continue
+            text = "".join(chr(m.eval(c, model_completion=True).as_long()) for c in cs)
+            iv = m.eval(v, model_completion=True).as_long()
+            try:
+                want = f(text, iv)
+            except Exception as e:
+                want = "EXC:" + type(e).__name__
+
+            def conc(x):
+                if isinstance(x, SStr):
+                    return "".join(chr(c) if isinstance(c, int) else chr(m.eval(c, model_completion=True).as_long()) for c in x.cs)
+                if isinstance(x, SInt):
+                    return m.eval(x.e, model_completion=True).as_signed_long()
+                if isinstance(x, (list, tuple)):
+                    return type(x)(conc(y) for y in x)
+                return x
+            got = "EXC:" + type(p.exc).__name__ if p.exc is not None else conc(p.result)
+            n += 1
+            if got != want:
+                raise EngineError("proxy method %s disagrees with CPython on %r / %d: %r vs %r" % (name, text, iv, got, want))
+    return n
+
+
 def selftest_models(item, res):
     """container models vs the real bidict/dict/set, SInt vs int, SStr methods vs str, instrumented vs plain modules."""
     import bidict
@@ -217,6 +267,7 @@ def selftest_models(item, res):
                     raise EngineError("int() model mismatch on %r base %d: %r vs CPython %r" % (text, b, got, want))
             if not seen_valid_nondigit:
                 raise EngineError("int() model self-test never reached a literal with sign/whitespace/underscore")
+    checks += _method_battery()
     # SStr methods vs str on concrete data forced through the symbolic route
     ex2 = Explorer()
 
